@@ -255,6 +255,106 @@ theorem C03_digest_current :
   simp only [Bool.and_eq_true, beq_iff_eq, decide_eq_true_eq] at this
   exact C03_digest_reads Generated.guards Generated.schema c cu ct ca cb post k1 k2 es h1 h2 h3 h4 h5 hk1 hk2 e this.1 this.2 b hb
 
+/-! ### a first-match premise discharged: the digest of a severed member is not taken for a command sequence -/
+
+/-- the digest union itself (not byte-string-wrapped), as it stands in the manifest for a severed member -/
+theorem C03_digest_union_reads (g : Guards) (s : Schema) (cu ct ca cb : Cls) (post : List Cls) (k1 k2 : String)
+    (es : List (String × Int))
+    (h2 : s.ty cu = some (.union (ct :: post)))
+    (h3 : s.ty ct = some (.tupleNamed [(k1, ca), (k2, cb)])) (h4 : s.ty ca = some (.enum es)) (h5 : s.ty cb = some .hex)
+    (hk1 : k1.endsWith "*" = false) (hk2 : k2.endsWith "*" = false)
+    (e : String × Int) (hf : es.find? (fun x => x.2 == e.2) = some e) (hr : -(2 ^ 64 : Int) ≤ e.2 ∧ e.2 < 2 ^ 64)
+    (b : Bytes) (hb : b.length < 2 ^ 64) :
+    Reads g s cu (enc (.arr [Cbor.ofInt e.2, .bstr b]))
+      (.alt 0 (s.name ct) (.tuple [k1, k2] [.enumv e.1 e.2, .leaf (.bstr b) .hex])) := by
+  have hval : valList [Node.enumv e.1 e.2, Node.leaf (.bstr b) .hex] = [Cbor.ofInt e.2, .bstr b] := by
+    simp [valList, Node.toVal]
+  have hw : (Cbor.arr [Cbor.ofInt e.2, .bstr b]).wf = true := by
+    simp only [Cbor.wf, wfList, ofInt_wf e.2 hr, Bool.and_true, Bool.true_and, Bool.and_eq_true, decide_eq_true_eq]
+    exact ⟨by simp, hb⟩
+  have hn : norm (.arr [Cbor.ofInt e.2, .bstr b]) = some (.arr [Cbor.ofInt e.2, .bstr b]) := by
+    simp [norm, normList, ofInt_norm]
+  have hfields : Fields g s [(k1, ca), (k2, cb)] [Node.enumv e.1 e.2, Node.leaf (.bstr b) .hex] := by
+    refine .cons hk1 ?_ (.cons hk2 ?_ .nil)
+    · have : ensure (Node.toVal (.enumv e.1 e.2)) = enc (Cbor.ofInt e.2) := by simp [Node.toVal, ensure_ofInt]
+      rw [this]
+      exact reads_leaf h4 (C03_enum g es e hf hr)
+    · have : ensure (Node.toVal (.leaf (.bstr b) .hex)) = b := by simp [Node.toVal, ensure]
+      rw [this]
+      exact reads_leaf h5 (by simp [leafFrom])
+  have ht := reads_tuple (g := g) (s := s) (c := ct) [(k1, ca), (k2, cb)] [Node.enumv e.1 e.2, Node.leaf (.bstr b) .hex] h3
+    (by rw [hval]; exact hw) (by rw [hval]; exact hn) hfields
+  rw [hval] at ht
+  exact reads_union (g := g) (s := s) (c := cu) [] ct post _ _ (by simpa using h2) (by simp) ht
+
+/-- a severable member given by digest: the union tries the command sequence first, which rejects the digest's bytes because no
+condition and no directive carries the code of a hash algorithm; the digest alternative then reads them exactly -/
+theorem C03_severed_digest_reads (g : Guards) (s : Schema) (cSev cSeq cL cCmd cCond cDir cu ct ca cb : Cls) (post : List Cls)
+    (esC esD : List Entry) (k1 k2 : String) (es : List (String × Int))
+    (hS : s.ty cSev = some (.union ([cSeq] ++ cu :: [])))
+    (g1 : s.ty cSeq = some (.cbstr cL)) (g2 : s.ty cL = some (.list cCmd (some 2)))
+    (g3 : s.ty cCmd = some (.union [cCond, cDir]))
+    (g4 : s.ty cCond = some (.keyValueTuple esC)) (g5 : s.ty cDir = some (.keyValueTuple esD))
+    (h2 : s.ty cu = some (.union (ct :: post)))
+    (h3 : s.ty ct = some (.tupleNamed [(k1, ca), (k2, cb)])) (h4 : s.ty ca = some (.enum es)) (h5 : s.ty cb = some .hex)
+    (hk1 : k1.endsWith "*" = false) (hk2 : k2.endsWith "*" = false)
+    (e : String × Int) (hf : es.find? (fun x => x.2 == e.2) = some e) (hr : -(2 ^ 64 : Int) ≤ e.2 ∧ e.2 < 2 ^ 64)
+    (hc : lookupId esC (Cbor.ofInt e.2) = none) (hd : lookupId esD (Cbor.ofInt e.2) = none)
+    (b : Bytes) (hb : b.length < 2 ^ 64) :
+    Reads g s cSev (enc (.arr [Cbor.ofInt e.2, .bstr b]))
+      (.alt 1 (s.name cu) (.alt 0 (s.name ct) (.tuple [k1, k2] [.enumv e.1 e.2, .leaf (.bstr b) .hex]))) := by
+  have hw : (Cbor.arr [Cbor.ofInt e.2, .bstr b]).wf = true := by
+    simp only [Cbor.wf, wfList, ofInt_wf e.2 hr, Bool.and_true, Bool.true_and, Bool.and_eq_true, decide_eq_true_eq]
+    exact ⟨by simp, hb⟩
+  have hrej := digest_rejected_as_sequence (g := g) (s := s) cSeq cL cCmd cCond cDir esC esD e.2 b g1 g2 g3 g4 g5 hc hd hw
+    (ofInt_norm e.2)
+  have hdig := C03_digest_union_reads g s cu ct ca cb post k1 k2 es h2 h3 h4 h5 hk1 hk2 e hf hr b hb
+  have := reads_union (g := g) (s := s) (c := cSev) [cSeq] cu [] _ _ hS (by
+    intro c' hc'
+    simp only [List.mem_cons, List.not_mem_nil, or_false] at hc'
+    subst hc'; exact hrej) hdig
+  simpa using this
+
+/-- the premises in the extracted schema, for the member `suit-install` of the manifest and every hash algorithm -/
+theorem C03_severed_chain :
+    ∃ (t : Nat) (nm : String) (cKv : Cls) (esEnv : List Entry) (emb : Option String) (eM : Entry) (cMk : Cls)
+      (esM : List Entry) (embM : Option String) (eI : Entry) (cSeq cL cCmd cCond cDir cu ct ca cb : Cls) (post : List Cls)
+      (esC esD : List Entry) (k1 k2 : String) (es : List (String × Int)),
+      Generated.schema.ty Generated.schema.envelope = some (.tag t nm cKv) ∧
+      Generated.schema.ty cKv = some (.keyValue esEnv emb) ∧
+      esEnv.find? (fun e => e.name == "suit-manifest") = some eM ∧
+      Generated.schema.ty eM.cls = some (.cbstr cMk) ∧ Generated.schema.ty cMk = some (.keyValue esM embM) ∧
+      esM.find? (fun e => e.name == "suit-install") = some eI ∧
+      Generated.schema.ty eI.cls = some (.union ([cSeq] ++ cu :: [])) ∧
+      Generated.schema.ty cSeq = some (.cbstr cL) ∧ Generated.schema.ty cL = some (.list cCmd (some 2)) ∧
+      Generated.schema.ty cCmd = some (.union [cCond, cDir]) ∧
+      Generated.schema.ty cCond = some (.keyValueTuple esC) ∧ Generated.schema.ty cDir = some (.keyValueTuple esD) ∧
+      Generated.schema.ty cu = some (.union (ct :: post)) ∧
+      Generated.schema.ty ct = some (.tupleNamed [(k1, ca), (k2, cb)]) ∧ Generated.schema.ty ca = some (.enum es) ∧
+      Generated.schema.ty cb = some .hex ∧ k1.endsWith "*" = false ∧ k2.endsWith "*" = false ∧
+      es.all (fun e => (es.find? (fun x => x.2 == e.2) == some e) && decide (-(2 ^ 64 : Int) ≤ e.2 ∧ e.2 < 2 ^ 64) &&
+        (lookupId esC (Cbor.ofInt e.2)).isNone && (lookupId esD (Cbor.ofInt e.2)).isNone) = true ∧
+      0 < es.length := by
+  refine ⟨_, _, _, _, _, _, _, _, _, _, _, _, _, _, _, _, _, _, _, _, _, _, _, _, _, rfl, rfl, rfl, rfl, rfl, rfl, rfl, rfl, rfl, rfl,
+    rfl, rfl, rfl, rfl, rfl, rfl, ?_, ?_, ?_, ?_⟩ <;> decide +kernel
+
+/-- **On the current tree:** the digest standing for a severed `suit-install` - any algorithm of the table, any value - is read
+back exactly: the command-sequence alternative, tried first, provably rejects it -/
+theorem C03_severed_digest_current :
+    ∃ (cSev cu ct : Cls) (k1 k2 : String) (es : List (String × Int)), 0 < es.length ∧
+      ∀ e ∈ es, ∀ (b : Bytes), b.length < 2 ^ 64 →
+        Reads Generated.guards Generated.schema cSev (enc (.arr [Cbor.ofInt e.2, .bstr b]))
+          (.alt 1 (Generated.schema.name cu)
+            (.alt 0 (Generated.schema.name ct) (.tuple [k1, k2] [.enumv e.1 e.2, .leaf (.bstr b) .hex]))) := by
+  obtain ⟨_, _, _, _, _, _, _, _, _, eI, cSeq, cL, cCmd, cCond, cDir, cu, ct, ca, cb, post, esC, esD, k1, k2, es, _, _, _, _, _, _,
+    hS, g1, g2, g3, g4, g5, h2, h3, h4, h5, hk1, hk2, hall, hlen⟩ := C03_severed_chain
+  refine ⟨eI.cls, cu, ct, k1, k2, es, hlen, fun e he b hb => ?_⟩
+  have := List.all_eq_true.mp hall e he
+  simp only [Bool.and_eq_true, beq_iff_eq, decide_eq_true_eq, Option.isNone_iff_eq_none] at this
+  obtain ⟨⟨⟨hf, hr⟩, hc⟩, hd⟩ := this
+  exact C03_severed_digest_reads Generated.guards Generated.schema eI.cls cSeq cL cCmd cCond cDir cu ct ca cb post esC esD k1 k2 es
+    hS g1 g2 g3 g4 g5 h2 h3 h4 h5 hk1 hk2 e hf hr hc hd b hb
+
 /-! ### the authentication wrapper of an unsigned envelope: `bstr [ bstr [alg, digest] ]` -/
 
 theorem C03_auth_wrapper_reads (g : Guards) (s : Schema) (cAw cAuth c cu ct ca cb cstar : Cls) (post : List Cls)
